@@ -43,258 +43,307 @@ def const_scalar(e):
     return None
 
 
-class BranchInterp:
-    """Symbolic interpreter of one `op_mat` dispatcher (if/elif chain on op_symbol)."""
+# ------------------------------------------------------------------ op_mat dispatchers run by the symbolic interpreter in the operator-polynomial domain
+def _scal(x):
+    """python / exact / sympy number -> sympy; None when x is not a number"""
+    from fractions import Fraction
+    if isinstance(x, bool):
+        return None
+    if isinstance(x, Fraction):
+        return sp.Rational(x.numerator, x.denominator)
+    if isinstance(x, (int, float)):
+        return sp.nsimplify(x)
+    if isinstance(x, complex):
+        return sp.nsimplify(x.real) + sp.I * sp.nsimplify(x.imag)
+    if isinstance(x, sp.Basic):
+        return sp.nsimplify(x, rational=True) if x.has(sp.Float) else x
+    return None
 
-    def __init__(self, chk, fi, flags, axioms, scalars, helper=None, where=None):
-        self.chk, self.fi, self.flags, self.axioms, self.scalars = chk, fi, flags, axioms, scalars
-        self.helper = helper or {}
+
+def _make_pv():
+    from ..syminterp import Sym
+
+    class PV(Sym):
+        """operator value of an abstract run: polynomial in non-commuting generators + the basis it is expressed in
+        (raw = oscillator eigenbasis, rot = DVR basis, inv = basis independent (multiple of the identity), mixed)"""
+        def __init__(self, poly, rot="raw", log=None):
+            super().__init__("operator")
+            self.p, self.rot, self.log = poly, rot, log if log is not None else []
+
+        def _mk(self, p, rot):
+            return PV(p, rot, self.log)
+
+        def _bin(self, o, f, what):
+            if isinstance(o, PV):
+                return self._mk(f(self.p, o.p), Val.join(self.rot, o.rot))
+            if _scal(o) is not None:
+                raise Opaque(f"matrix {what} bare scalar")
+            raise Opaque(f"matrix {what} {type(o).__name__}")
+
+        def __add__(self, o):
+            return self._bin(o, lambda a, c: a + c, "+")
+
+        def __radd__(self, o):
+            return self._bin(o, lambda a, c: c + a, "+")
+
+        def __sub__(self, o):
+            return self._bin(o, lambda a, c: a - c, "-")
+
+        def __rsub__(self, o):
+            return self._bin(o, lambda a, c: c - a, "-")
+
+        def __mul__(self, o):
+            c = _scal(o)
+            if c is None:
+                raise Opaque("element-wise product of two matrices" if isinstance(o, PV) else f"matrix * {type(o).__name__}")
+            return self._mk(self.p * Poly.scalar(c), self.rot)
+
+        __rmul__ = __mul__
+
+        def __truediv__(self, o):
+            c = _scal(o)
+            if c is None:
+                raise Opaque("division by matrix")
+            return self._mk(self.p * Poly.scalar(1 / c), self.rot)
+
+        def __neg__(self):
+            return self._mk(-self.p, self.rot)
+
+        def __matmul__(self, o):
+            if isinstance(o, PV):
+                return self._mk(self.p * o.p, Val.join(self.rot, o.rot))
+            if isinstance(o, _Rot):
+                return o.__rmatmul__(self)
+            raise Opaque("matrix product with a non-operator")
+
+        def __pow__(self, k):
+            raise Opaque("matrix power")
+
+        @property
+        def real(self):
+            if not self.p.coeffs_real():
+                self.log.append(("real of", repr(self.p)))
+            return self
+
+        @property
+        def T(self):
+            raise Opaque("transpose of an operator value")
+
+        def copy(self):
+            return self
+
+    class _Rot(Sym):
+        """the DVR rotation V (kind 'V') or its transpose ('VT'); V^T M V moves M from the oscillator basis into the DVR basis, V M V^T back"""
+        def __init__(self, kind, pending=None):
+            super().__init__(kind)
+            self.kind, self.pending = kind, pending
+
+        @property
+        def T(self):
+            return _Rot("VT" if self.kind == "V" else "V")
+
+        def __matmul__(self, o):
+            if isinstance(o, PV) and self.pending is None:
+                return _Rot(self.kind, pending=o)
+            raise Opaque("rotation applied to a non-operator")
+
+        def __rmatmul__(self, o):
+            raise Opaque("operator times rotation without the other half")
+    _orig = PV.__matmul__
+
+    def matmul(self, o):
+        return _orig(self, o)
+    PV.__matmul__ = matmul
+
+    def rot_close(left, right):
+        """(V^T @ M) @ V and (V @ M) @ V^T"""
+        m = left.pending
+        if left.kind == "VT" and right.kind == "V":
+            return PV(m.p, "rot" if m.rot == "raw" else ("inv" if m.rot == "inv" else "mixed"), m.log)
+        if left.kind == "V" and right.kind == "VT":
+            return PV(m.p, "raw" if m.rot == "rot" else m.rot, m.log)
+        raise Opaque("rotation with the same factor on both sides")
+
+    def rot_matmul(self, o):
+        if self.pending is not None and isinstance(o, _Rot) and o.pending is None:
+            return rot_close(self, o)
+        if isinstance(o, PV) and self.pending is None:
+            return _Rot(self.kind, pending=o)
+        raise Opaque("rotation applied to a non-operator")
+    _Rot.__matmul__ = rot_matmul
+    return PV, _Rot
+
+
+PV, _Rot = _make_pv()
+
+
+class OpMatRun:
+    """value(symbol): abstract run of <Class>.op_mat from source (helper methods included) on a stand-in whose numeric leaves are generators of an operator algebra.
+    kind 'sho': leaves are the ladder words of `axioms` (op_mat of such a symbol is not entered), scalars omega, x0; np.diag(dvr_x**k) is x**k in the DVR basis;
+    kind 'sine': leaves are the helper monomials _I, _u, _uu, _uuu, _du, _udu, _uudu and the spectrum _eigene (times 2 through the column-scaling einsum = p^2)."""
+    def __init__(self, src, cname, flags, axioms=None, kind="sho"):
+        from ..syminterp import SymInterp, Sym, Blob, OpenSym, SymRaise
+        from .chain_rules import class_resolver
+        self.src, self.cname, self.flags, self.axioms, self.kind = src, cname, dict(flags), axioms or {}, kind
+        self.fi = src.func(BASIS, f"{cname}.op_mat")
+        self.log = []
         self.depth = 0
-        self.real_viol = []
-        self.selected = {}
+        self._SymRaise = SymRaise
+        run = self
 
-    def value(self, symbol):
+        class Stand(Sym):
+            def op_mat(me, op):
+                sym = op if isinstance(op, str) else op.symbol
+                return run._value(sym, me)
+        self.Stand = Stand
+        self.resolve = class_resolver(src, {cname: BASIS})
+        self._mods = (SymInterp, Sym, Blob, OpenSym)
+
+    def _stand(self):
+        SymInterp, Sym, Blob, OpenSym = self._mods
+        me = self.Stand("basis")
+        me._cls = self.cname
+        me._recursion_flag = 0
+        me.nbas = 2
+        for k, v in self.flags.items():
+            setattr(me, k, v)
+        if self.kind == "sho":
+            me.omega, me.x0 = w, x0
+            me.dvr_v = _Rot("V")
+            me.dvr_x = Sym("dvr_x")
+        else:
+            me.xi, me.L, me.xf = xi, sp.Symbol("L", positive=True), xi + sp.Symbol("L", positive=True)
+            me.dvr_v, me.dvr_x = _Rot("V"), Sym("dvr_x")
+            u, d = Poly.gen("u"), Poly.gen("d")
+            for name, mono in (("_I", Poly.scalar(1)), ("_u", u), ("_uu", u * u), ("_uuu", u * u * u), ("_du", d), ("_udu", u * d), ("_uudu", u * u * d)):
+                me.__dict__[name] = (lambda mono=mono: PV(mono, "raw", self.log))
+            me.__dict__["_eigene"] = lambda: _Eig(1)
+        return me
+
+    def value(self, symbol, **flags):
+        me = self._stand()
+        for k, v in flags.items():
+            setattr(me, k, v)
+        return self._value(symbol, me, top=True)
+
+    def _value(self, symbol, me, top=False):
+        SymInterp, Sym, Blob, OpenSym = self._mods
+        if not top and symbol in self.axioms:
+            return PV(self.axioms[symbol], "raw", self.log)
+        if top and symbol in self.axioms:
+            return PV(self.axioms[symbol], "raw", self.log)
         self.depth += 1
         if self.depth > 12:
+            self.depth = 0
             raise AnalysisError(f"{self.fi.where}: recursion too deep for symbol {symbol!r}")
         try:
-            return self._run(symbol)
+            it = SymInterp(self.src, self.resolve, self._builtins(me))
+            it.max_depth = 14
+            it.exact = True
+            op = Sym("op", symbol=symbol, factor=1, split_symbol=symbol.replace(r"b^\dagger + b", r"b^\dagger+b").split(" "), dofs=[getattr(me, "dof", "dof")] * len(symbol.split(" ")))
+            try:
+                res = it.call_function(self.fi, [me, op])
+            except self._SymRaise as e:
+                raise Opaque(f"dispatcher raises ({e})")
+            if not isinstance(res, PV):
+                raise Opaque(f"op_mat({symbol!r}) returns {type(res).__name__}")
+            return res
         finally:
             self.depth -= 1
 
-    def _run(self, symbol):
-        names = {}
-        se = StrEval(names, self.flags)
-        mat = [None]
-        result = [None]
+    def _builtins(self, me):
+        SymInterp, Sym, Blob, OpenSym = self._mods
+        log = self.log
+        run = self
 
-        def has_mat_assign(node):
-            for n in ast.walk(node):
-                if isinstance(n, (ast.Assign, ast.AugAssign)):
-                    t = n.targets[0] if isinstance(n, ast.Assign) else n.target
-                    if isinstance(t, ast.Name) and t.id == "mat":
-                        return True
-                if isinstance(n, (ast.Return, ast.Raise)):
-                    return True
-            return False
+        class Legacy(Sym):
+            """matrix filled element by element by a loop (`legacy for check` blocks, general moments): not interpreted"""
+            def __init__(self):
+                super().__init__("loop-built matrix")
 
-        def block(stmts):
-            for s in stmts:
-                if result[0] is not None:
-                    return
-                if isinstance(s, ast.If):
-                    t = unparse(s.test)
-                    if "isinstance(op, Op)" in t:
-                        continue
-                    if not has_mat_assign(s):
-                        continue
-                    try:
-                        c = se.ev(s.test)
-                    except AnalysisError:
-                        raise
-                    block(s.body if c else s.orelse)
-                    continue
-                if isinstance(s, ast.Assign) and len(s.targets) == 1:
-                    tg = s.targets[0]
-                    if isinstance(tg, ast.Tuple) and unparse(tg).replace(" ", "").strip("()") == "op_symbol,op_factor":
-                        v = unparse(s.value).replace(" ", "").strip("()")
-                        if v == "op.symbol,op.factor":
-                            names["op_symbol"] = symbol
-                        elif v == "op.split_symbol,op.factor":
-                            names["op_symbol"] = symbol.replace(r"b^\dagger + b", r"b^\dagger+b").split(" ")
-                        else:
-                            raise AnalysisError(f"{self.fi.where}: unexpected symbol unpacking {v}")
-                        continue
-                    if isinstance(tg, ast.Name) and tg.id == "op_symbol":
-                        names["op_symbol"] = se.ev(s.value)
-                        continue
-                    if isinstance(tg, ast.Name) and tg.id == "mat":
-                        mat[0] = self.mev(s.value, mat[0], names)
-                        continue
-                    if isinstance(tg, ast.Name):
-                        # local helper (moment = ..., tmp = <matrix>, mat1 legacy ...) -> opaque only if used later
-                        try:
-                            names[tg.id] = se.ev(s.value)
-                        except AnalysisError:
-                            try:
-                                names[tg.id] = self.mev(s.value, mat[0], names)
-                            except Opaque:
-                                names.pop(tg.id, None)
-                        continue
-                    continue
-                if isinstance(s, ast.AugAssign) and isinstance(s.target, ast.Name) and s.target.id == "mat":
-                    rhs = self.mev(s.value, mat[0], names)
-                    if mat[0] is None:
-                        raise AnalysisError("mat augmented before assignment")
-                    if isinstance(s.op, ast.Add):
-                        mat[0] = Val(mat[0].p + rhs.p, Val.join(mat[0].rot, rhs.rot))
-                    elif isinstance(s.op, ast.Sub):
-                        mat[0] = Val(mat[0].p - rhs.p, Val.join(mat[0].rot, rhs.rot))
-                    else:
-                        raise Opaque("augmented op")
-                    continue
-                if isinstance(s, ast.Return):
-                    t = unparse(s.value).replace(" ", "")
-                    if t == "mat*op_factor":
-                        result[0] = mat[0]
-                    else:
-                        result[0] = self.mev(s.value, mat[0], names)
-                    return
-                if isinstance(s, ast.Raise):
-                    raise Opaque("unsupported symbol (dispatcher raises)")
-                if isinstance(s, (ast.AugAssign, ast.Expr, ast.Assert, ast.Pass)):
-                    continue
-                if isinstance(s, ast.For):
-                    if has_mat_assign(s) or any(isinstance(n, ast.Subscript) and unparse(n.value) in ("mat",) for n in ast.walk(s)):
-                        raise Opaque("loop-built matrix")
-                    continue
-                raise AnalysisError(f"{self.fi.where}: statement outside the fragment: {unparse(s)[:60]}")
+            def __setitem__(self, k, v):
+                pass
 
-        block(self.fi.node.body)
-        if result[0] is None:
-            raise Opaque("no value")
-        return result[0]
+            def __getitem__(self, k):
+                return 0
 
-    def scalar(self, e, names):
-        c = const_scalar(e)
-        if c is not None:
-            return c
-        t = unparse(e)
-        if t in self.scalars:
-            return self.scalars[t]
-        if isinstance(e, ast.Name) and e.id in names and isinstance(names[e.id], (int, float)):
-            return sp.nsimplify(names[e.id])
-        if isinstance(e, ast.UnaryOp) and isinstance(e.op, ast.USub):
-            return -self.scalar(e.operand, names)
-        if isinstance(e, ast.BinOp):
-            a, c2 = self.scalar(e.left, names), self.scalar(e.right, names)
-            if isinstance(e.op, ast.Add):
-                return a + c2
-            if isinstance(e.op, ast.Sub):
-                return a - c2
-            if isinstance(e.op, ast.Mult):
-                return a * c2
-            if isinstance(e.op, ast.Div):
-                return a / c2
-            if isinstance(e.op, ast.Pow):
-                return a ** c2
-        if isinstance(e, ast.Call) and unparse(e.func) in ("np.sqrt", "math.sqrt", "numpy.sqrt") and len(e.args) == 1:
-            return sp.sqrt(self.scalar(e.args[0], names))
-        raise Opaque(f"non-scalar {t}")
+            @property
+            def T(self):
+                return self
 
-    def mev(self, e, cur, names):
-        """matrix-valued expression -> Val"""
-        try:
-            return Val(Poly.scalar(self.scalar(e, names)), "scalar")
-        except Opaque:
-            pass
-        if isinstance(e, ast.Name):
-            if e.id == "mat":
-                if cur is None:
-                    raise AnalysisError("mat read before assignment")
-                return cur
-            if isinstance(names.get(e.id), Val):
-                return names[e.id]
-            raise Opaque(f"name {e.id}")
-        if isinstance(e, ast.Call):
-            ft = unparse(e.func)
-            if ft == "self.op_mat" and len(e.args) == 1:
-                a = e.args[0]
-                if isinstance(a, ast.Constant) and isinstance(a.value, str):
-                    return self.sym(a.value)
-                if isinstance(a, ast.JoinedStr):
-                    # f"x^{moment}" with a concrete local
-                    s = ""
-                    for v in a.values:
-                        if isinstance(v, ast.Constant):
-                            s += v.value
-                        else:
-                            nm = unparse(v.value)
-                            if nm not in names:
-                                raise Opaque("f-string")
-                            s += str(names[nm])
-                    return self.sym(s)
-                if isinstance(a, ast.Name) and a.id in names and isinstance(names[a.id], str):
-                    return self.sym(names[a.id])
-                raise Opaque("op_mat(non-literal)")
-            if ft in ("np.eye", "numpy.eye"):
-                return Val(Poly.scalar(1), "inv")
-            if ft in ("np.diag", "numpy.diag") and e.args:
-                t = unparse(e.args[0]).replace(" ", "")
-                if t == "self.dvr_x":
-                    return Val(self.sym_noflag("x").p, "rot")
-                if t.startswith("self.dvr_x**"):
-                    k = t.split("**")[1]
-                    if k.isdigit():
-                        return Val(self.sym_noflag("x").p ** int(k), "rot")
-                    if k in names and float(names[k]).is_integer():
-                        return Val(self.sym_noflag("x").p ** int(names[k]), "rot")
-                raise Opaque("np.diag literal")
-            if ft in self.helper:
-                return self.helper[ft](self, e, cur, names)
-            raise Opaque(f"call {ft}")
-        if isinstance(e, ast.Attribute) and e.attr == "real":
-            v = self.mev(e.value, cur, names)
-            if not v.p.coeffs_real():
-                self.real_viol.append((unparse(e), repr(v.p)))
-            return v
-        if isinstance(e, ast.UnaryOp) and isinstance(e.op, ast.USub):
-            v = self.mev(e.operand, cur, names)
-            return Val(-v.p, v.rot)
-        if isinstance(e, ast.BinOp):
-            if isinstance(e.op, ast.MatMult):
-                # V.T @ M @ V : rotation into the DVR basis
-                t = unparse(e).replace(" ", "")
-                if isinstance(e.left, ast.BinOp) and isinstance(e.left.op, ast.MatMult):
-                    l, m, r = unparse(e.left.left), e.left.right, unparse(e.right)
-                    if (l, r) == ("self.dvr_v.T", "self.dvr_v"):
-                        v = self.mev(m, cur, names)
-                        return Val(v.p, "rot" if v.rot in ("raw",) else ("inv" if v.rot == "inv" else "mixed"))
-                    if (l, r) == ("self.dvr_v", "self.dvr_v.T"):
-                        v = self.mev(m, cur, names)
-                        return Val(v.p, "raw" if v.rot == "rot" else v.rot)
-                a, c = self.mev(e.left, cur, names), self.mev(e.right, cur, names)
-                return Val(a.p * c.p, Val.join(a.rot, c.rot) if "scalar" not in (a.rot, c.rot) else (a.rot if c.rot == "scalar" else c.rot))
-            a, c = self.mev(e.left, cur, names), self.mev(e.right, cur, names)
+            def __sub__(self, o):
+                return self
 
-            def rj(x, y):
-                if x == "scalar":
-                    return y
-                if y == "scalar":
-                    return x
-                return Val.join(x, y)
-            if isinstance(e.op, ast.Add):
-                if "scalar" in (a.rot, c.rot) and not (a.rot == c.rot):
-                    raise Opaque("matrix + bare scalar")
-                return Val(a.p + c.p, rj(a.rot, c.rot))
-            if isinstance(e.op, ast.Sub):
-                if "scalar" in (a.rot, c.rot) and not (a.rot == c.rot):
-                    raise Opaque("matrix - bare scalar")
-                return Val(a.p - c.p, rj(a.rot, c.rot))
-            if isinstance(e.op, ast.Mult):
-                if "scalar" not in (a.rot, c.rot):
-                    raise Opaque("element-wise product of two matrices")
-                return Val(a.p * c.p, rj(a.rot, c.rot))
-            if isinstance(e.op, ast.Div):
-                if c.rot != "scalar":
-                    raise Opaque("division by matrix")
-                return Val(a.p / c.p, a.rot)
-            if isinstance(e.op, ast.Pow):
-                if a.rot == "scalar" and c.rot == "scalar":
-                    return Val(Poly.scalar(list(a.p.t.values())[0] ** list(c.p.t.values())[0] if a.p.t and c.p.t else 0), "scalar")
-                raise Opaque("matrix power")
-        raise Opaque(f"expression {unparse(e)[:50]}")
+            __isub__ = __rsub__ = __add__ = __radd__ = __iadd__ = __pow__ = __mul__ = __rmul__ = __truediv__ = __rtruediv__ = __matmul__ = __rmatmul__ = __sub__
 
-    def sym(self, symbol):
-        if symbol in self.axioms:
-            return Val(self.axioms[symbol], "raw")
-        return self.value(symbol)
+            def __neg__(self):
+                return self
 
-    def sym_noflag(self, symbol):
-        """value of a symbol in the plain (non-DVR) mode, used for np.diag(self.dvr_x)."""
-        other = BranchInterp(self.chk, self.fi, dict(self.flags, **{"self.dvr": False}), self.axioms, self.scalars, self.helper)
+        def diag(v, k=0):
+            if run.kind == "sho" and isinstance(v, Sym) and v._name == "dvr_x":
+                return PV(run._plain("x").p, "rot", log)
+            if isinstance(v, _DvrPow):
+                return PV(run._plain("x").p ** v.k, "rot", log)
+            if run.kind == "sine":
+                return Legacy()
+            raise Opaque("np.diag of a computed vector")
+
+        def zeros(*a, **k):
+            if run.kind == "sine":
+                return Legacy()
+            raise Opaque("loop-built matrix")
+
+        def einsum(spec, m, v):
+            if spec.replace(" ", "") == "jk,k->jk" and isinstance(m, PV) and isinstance(v, _Eig) and v.k == 2:
+                return PV(m.p * Poly.gen("P"), m.rot, log)
+            raise Opaque("einsum")
+
+        def sqrt(x):
+            c = _scal(x)
+            if c is None:
+                raise Opaque("sqrt of a non-scalar")
+            return sp.sqrt(c)
+        me.dvr_x.__class__ = _DvrX if not isinstance(me.dvr_x, _DvrX) else me.dvr_x.__class__
+        npx = OpenSym("np", make=lambda t: Blob(t), eye=lambda n, *a, **k: PV(Poly.scalar(1), "inv", log), diag=diag, zeros=zeros, einsum=einsum, sqrt=sqrt, allclose=lambda *a, **k: True,
+                      pi=sp.pi, arange=lambda *a, **k: Legacy(), real=lambda x: x, float64="float64", complex128="complex128")
+        return {"np": npx, "logger": Blob("logger"), "isinstance": lambda x, t: True, "Op": "Op", "round": lambda x: int(round(float(x))), "float": lambda x: float(x),
+                "scipy": Blob("scipy"), "x_power_k": lambda *a: 0, "p_power_k": lambda *a: 0}
+
+    def _plain(self, symbol):
+        """value of a symbol in the plain (non-DVR) mode, used for np.diag(self.dvr_x)"""
+        other = OpMatRun(self.src, self.cname, dict(self.flags, dvr=False), self.axioms, self.kind)
         other.depth = self.depth
         return other.value(symbol)
+
+
+def _mk_tokens():
+    from ..syminterp import Sym
+
+    class _DvrPow(Sym):
+        def __init__(self, k):
+            super().__init__(f"dvr_x**{k}")
+            self.k = k
+
+    class _DvrX(Sym):
+        def __pow__(self, k):
+            kk = _scal(k)
+            if kk is None or kk != int(kk) or kk < 0:
+                raise Opaque("non-integer power of the DVR grid")
+            return _DvrPow(int(kk))
+
+    class _Eig(Sym):
+        def __init__(self, k):
+            super().__init__(f"{k}*E")
+            self.k = k
+
+        def __mul__(self, o):
+            return _Eig(self.k * int(_scal(o)))
+
+        __rmul__ = __mul__
+    return _DvrPow, _DvrX, _Eig
+
+
+_DvrPow, _DvrX, _Eig = _mk_tokens()
 
 
 # ------------------------------------------------------------------ 2x2 folding
@@ -731,6 +780,32 @@ def counter_balance_rule(chk, src):
         raise AnalysisError("no recursion counter found in model/basis.py (anchor of the counter-balance rule)")
 
 
+def accepted_symbols(src, cname, runner):
+    """operator symbols of a basis class: every string literal of the class body and of the module-level tuples / lists it names that looks like an operator symbol and that
+    the dispatcher does not reject (decided by running it); how the dispatcher compares (if-chain, membership in a constant, dict) does not matter"""
+    import re
+    ci = src.cls(BASIS, cname)
+    mod = src.modules[BASIS]
+    cands = {n.value for n in ast.walk(ci.node) if isinstance(n, ast.Constant) and isinstance(n.value, str)}
+    used = {n.id for n in ast.walk(ci.node) if isinstance(n, ast.Name)}
+    for st in mod.body:
+        if isinstance(st, ast.Assign) and any(isinstance(t, ast.Name) and t.id in used for t in st.targets):
+            cands |= {n.value for n in ast.walk(st.value) if isinstance(n, ast.Constant) and isinstance(n.value, str)}
+    out = set()
+    for c in sorted(cands):
+        if not c or len(c) > 24 or not re.fullmatch(r"[A-Za-z0-9^+\\ _-]+", c) or c.strip() != c or "  " in c:
+            continue
+        try:
+            runner.value(c)
+        except Opaque as e:
+            if "dispatcher raises" in str(e):
+                continue
+        except (AnalysisError, ValueError, TypeError, KeyError, IndexError, AttributeError):
+            continue
+        out.add(c)
+    return out
+
+
 def run(chk):
     src = chk.src
     Mat2.SRC = src
@@ -764,18 +839,9 @@ def run(chk):
 
     # ------------------------------------------------------------ SHO
     sho = src.func(BASIS, "BasisSHO.op_mat")
-    scal = {"self.omega": w, "self.x0": x0}
-    flags = {"self.general_xp_power": False, "self.dvr": False}
-    bi = BranchInterp(chk, sho, flags, SHO_AXIOMS, scal)
+    bi = OpMatRun(src, "BasisSHO", {"general_xp_power": False, "dvr": False}, SHO_AXIOMS, "sho")
     # candidate symbols: literals compared with op_symbol
-    lits = set()
-    for n in ast.walk(sho.node):
-        if isinstance(n, ast.Compare) and unparse(n.left) == "op_symbol":
-            for c in n.comparators:
-                for x in ast.walk(c):
-                    if isinstance(x, ast.Constant) and isinstance(x.value, str):
-                        lits.add(x.value)
-    lits |= {"x x", "p p", "x^1", "p^1"}
+    lits = accepted_symbols(src, "BasisSHO", bi) | {"x x", "p p", "x^1", "p^1"}
     chk.table("sho_symbols", sorted(lits))
 
     def factors(sym):
@@ -837,13 +903,13 @@ def run(chk):
         comm2 = vxp.p - vpx.p
         chk.ob("sho-commutator", "'x p' - 'p x'", equal(comm2, Poly.scalar(sp.I)), sho.where, repr(normal_order(comm2)), "i",
                detail="the 'x p' and 'p x' branches differ by something other than i (ordering swapped or wrong)", line=sho.node.lineno)
-    chk.ob("sho-real", "BasisSHO .real operands", not bi.real_viol, sho.where, bi.real_viol[:3] or "all real", "real coefficients",
+    chk.ob("sho-real", "BasisSHO .real operands", not bi.log, sho.where, bi.log[:3] or "all real", "real coefficients",
            line=sho.node.lineno)
     # shifted origin
     chk.ob("sho-product", "BasisSHO['x'] == (b+ + b)/sqrt(2 omega) + x0", equal(vx.p, (B + b) * Poly.scalar(1 / sp.sqrt(2 * w)) + Poly.scalar(x0)),
            sho.where, repr(vx.p), "(B+b)/sqrt(2w) + x0", line=sho.node.lineno)
     # DVR mode
-    bid = BranchInterp(chk, sho, {"self.general_xp_power": False, "self.dvr": True}, SHO_AXIOMS, scal)
+    bid = OpMatRun(src, "BasisSHO", {"general_xp_power": False, "dvr": True}, SHO_AXIOMS, "sho")
     for sym in ("x", "x^2", "p", "p^2", "x p", "p x", "x dx", "dx x", "dx", "dx^2"):
         if sym not in lits:
             continue
@@ -864,37 +930,14 @@ def run(chk):
     # ------------------------------------------------------------ sine DVR
     sine = src.func(BASIS, "BasisSineDVR.op_mat")
     u, d, P2 = Poly.gen("u"), Poly.gen("d"), Poly.gen("P")   # P = p^2 (diagonal 2E)
-    helper_mono = {"self._I": Poly.scalar(1), "self._u": u, "self._uu": u * u, "self._uuu": u * u * u,
-                   "self._du": d, "self._udu": u * d, "self._uudu": u * u * d}
-
-    def h_helper(mono):
-        return lambda interp, e, cur, names: Val(mono, "raw")
-
-    def h_einsum(interp, e, cur, names):
-        # np.einsum("jk,k->jk", M, self._eigene()*2)  == M @ diag(2E) == M p^2
-        if len(e.args) == 3 and isinstance(e.args[0], ast.Constant) and e.args[0].value.replace(" ", "") == "jk,k->jk":
-            m = interp.mev(e.args[1], cur, names)
-            t = unparse(e.args[2]).replace(" ", "")
-            if t in ("self._eigene()*2", "2*self._eigene()"):
-                return Val(m.p * P2, "raw")
-        raise Opaque("einsum")
-
-    helpers = {k: h_helper(v) for k, v in helper_mono.items()}
-    helpers["np.einsum"] = h_einsum
-    si = BranchInterp(chk, sine, {"self.dvr": False, "self.quadrature": False}, {}, {"self.xi": xi, "self.L": sp.Symbol("L", positive=True)}, helpers)
+    si = OpMatRun(src, "BasisSineDVR", {"dvr": False, "quadrature": False}, {}, "sine")
     X = Poly.scalar(xi) + u
     expect = {
         "x": X, "x^1": X, "x^2": X * X, "x^3": X * X * X, "x x": X * X, "dx": d, "p": Poly.scalar(-sp.I) * d, "p^2": P2,
         "dx^2": -P2, "dx dx": -P2, "x dx": X * d, "x^2 dx": X * X * d, "x p^2": X * P2, "x dx^2": -(X * P2),
         "x^2 p^2": X * X * P2, "x^2 dx^2": -(X * X * P2), "x^3 p^2": X * X * X * P2, "x^3 dx^2": -(X * X * X * P2),
     }
-    slits = set()
-    for n in ast.walk(sine.node):
-        if isinstance(n, ast.Compare) and unparse(n.left) == "op_symbol":
-            for c in n.comparators:
-                for x in ast.walk(c):
-                    if isinstance(x, ast.Constant) and isinstance(x.value, str):
-                        slits.add(x.value)
+    slits = accepted_symbols(src, "BasisSineDVR", si)
     chk.table("sinedvr_symbols", sorted(slits))
     for sym in sorted(slits | {"x x"}):
         if sym == "I":
